@@ -246,3 +246,91 @@ def kinded_grammar(logic, T):
                 rhs = tuple(('n', 'K_' + next(it)) if t in ('C1', 'C2', 'C3') else ('t', t) for t in toks)
                 G['K_' + res].append((rhs, (name, k)))
     return G, ['K_' + k for k in kinds]
+
+
+# ------------------------------------------------------------------ is printing compositional?  (what the grammar model assumes)
+def compositional_task(logic):
+    """The printed-form grammar is extracted by printing every operator over ATOMIC placeholders; it is a faithful model of
+    __str__ only if printing is compositional: str(Op(c1..ck)) is the operator's template with str(ci) substituted, whatever
+    the class of ci.  This task checks that on every (operator, arity, position, class of the child) natively and, independently,
+    groups ALL formulas of height <= 2 (n-ary operators with 2 and 3 operands) by printed form to find two different trees
+    that print identically (exhaustive up to the stated pools; enumeration, not a solver verdict)."""
+    M = importlib.import_module('pyModelChecking.' + logic)
+    T = extract_templates(M)
+    names = [n for n in M.alphabet if n not in ('Bool', 'AtomicProposition')]
+    ap = lambda s: M.AtomicProposition(s)
+    leaves = [ap('p'), ap('q'), M.Bool(True)]
+    out = dict(logic=logic, contexts=0, non_compositional=[], formulas=0, collisions=[])
+
+    def build(cls, ops):
+        try:
+            return cls(*ops)
+        except Exception:
+            return None
+    # height-1 pool: every operator over leaves, arities 1..3
+    h1 = []
+    for n in names:
+        cls = M.alphabet[n]
+        for k in (1, 2, 3):
+            if n in ARITY and k != ARITY[n]:
+                continue
+            if n not in ARITY and k == 1:
+                continue
+            for ops in itertools.product(leaves, repeat=k):
+                f = build(cls, [o.clone() if hasattr(o, 'clone') else o for o in ops])
+                if f is not None:
+                    h1.append(f)
+    # (1) compositionality on every context: parent over one height-1 child (each class/arity) and atoms elsewhere
+    reps = {}
+    for f in h1:
+        reps.setdefault((type(f).__name__, len(list(f.subformulas()))), f)
+    for n in names:
+        cls = M.alphabet[n]
+        for k, toks in T.get(n, []):
+            if (n in ARITY and k != ARITY[n]) or (n not in ARITY and k == 1):
+                continue
+            for pos in range(k):
+                for (cn, ck), child in reps.items():
+                    ops = [ap('C%d' % (i + 1)) for i in range(k)]
+                    ops[pos] = child.clone()
+                    f = build(cls, ops)
+                    if f is None:
+                        continue
+                    out['contexts'] += 1
+                    want = []
+                    for t in toks:
+                        want += tokenize(str(child)) if t == 'C%d' % (pos + 1) else [t]
+                    if tokenize(str(f)) != want:
+                        out['non_compositional'].append(dict(parent=n, arity=k, position=pos, child='%s/%d' % (cn, ck), printed=str(f), expected=' '.join(want)))
+    # (2) all formulas of height <= 2 grouped by printed form (ternary operands from a reduced pool)
+    small = leaves + [f for f in h1 if all(str(s) in ('p', 'q') for s in f.subformulas())][:40]
+    pool2 = list(leaves) + h1
+    groups = {}
+
+    def note(f):
+        out['formulas'] += 1
+        groups.setdefault(str(f), []).append(f)
+    for f in pool2:
+        note(f)
+    for n in names:
+        cls = M.alphabet[n]
+        for k in (1, 2, 3):
+            if (n in ARITY and k != ARITY[n]) or (n not in ARITY and k == 1):
+                continue
+            src = pool2 if k <= 2 else small
+            for ops in itertools.product(src, repeat=k):
+                if all(o in leaves for o in ops):
+                    continue
+                f = build(cls, [o.clone() for o in ops])
+                if f is not None:
+                    note(f)
+    for text, fs in groups.items():
+        shapes = {}
+        for f in fs:
+            shapes.setdefault(_shape(f), f)
+        if len(shapes) > 1:
+            a, b = list(shapes.values())[:2]
+            out['collisions'].append(dict(text=text, a=repr(_shape(a)), b=repr(_shape(b)), eq=bool(a == b), same_hash=hash(a) == hash(b)))
+            if len(out['collisions']) >= 20:
+                break
+    return out
